@@ -151,10 +151,34 @@ inductive Word
 /-- `ListNode._join_entries` -/
 def isSpaceChar (c : Char) : Bool := c == ' ' || c == '\n' || c == '\t' || c == '\r' || c == '\x0b' || c == '\x0c'
 
+def lastLine (cs : List Char) : List Char := (cs.reverse.takeWhile (· != '\n')).reverse
+
+/-- `ListNode._COMMENT_LINE.match`: ` {0,4}[cC]( |$)` -/
+def isCommentLine (cs : List Char) : Bool :=
+  let lead := cs.takeWhile (· == ' ')
+  lead.length ≤ 4 &&
+    match cs.dropWhile (· == ' ') with
+    | c :: r => (c == 'c' || c == 'C') && (match r with | [] => true | d :: _ => d == ' ')
+    | [] => false
+
 def joinEntries (front text : String) : String :=
-  match front.toList.getLast?, text.toList.head? with
-  | some a, some b => if !isSpaceChar a && !isSpaceChar b then front ++ " " ++ text else front ++ text
-  | _, _ => front ++ text
+  if front.isEmpty || text.isEmpty then front ++ text
+  else
+    let fl := front.toList
+    let ll := lastLine fl
+    -- an entry can not follow a comment on the same line
+    let front' := if ll.contains '$' || (fl.contains '\n' && isCommentLine ll) then front ++ "\n" else front
+    match front'.toList.getLast?, text.toList.head? with
+    | some a, some b =>
+      if a == '\n' then
+        -- behind a line break the entry must stay a continuation: at least BLANK_SPACE_CONTINUE leading blanks
+        let lead := (text.toList.takeWhile (· == ' ')).length
+        if lead < Gen.blankSpaceContinue then
+          front' ++ String.ofList (List.replicate (Gen.blankSpaceContinue - lead) ' ') ++ text
+        else front' ++ text
+      else if !isSpaceChar a && !isSpaceChar b then front' ++ " " ++ text
+      else front' ++ text
+    | _, _ => front' ++ text
 
 def zeroPad (len : Nat) (s : String) : String :=
   String.ofList (List.replicate (len - s.length) '0') ++ s
@@ -245,6 +269,22 @@ def formatMultiply (s : Sc) (carried : Option Rat) : Option Fmt :=
         else none
     | _, _, _ => none
 
+/-- the loop of `_is_interpolation` (`for i, node in enumerate(nodes)`, from index `i` on), linear -/
+def linOk (b spacing : Rat) : Nat → List Leaf → Bool
+  | _, [] => true
+  | i, l :: ls =>
+    (match l.val with
+      | some y => isclose (b + spacing * ((i + 1 : Nat) : Rat)) y
+      | none => false) && linOk b spacing (i + 1) ls
+
+/-- the loop of `_is_interpolation`, logarithmic -/
+def logOk (b e : Rat) (number : Nat) : Nat → List Leaf → Bool
+  | _, [] => true
+  | i, l :: ls =>
+    (match l.val with
+      | some y => powClose y number (b ^ (number - (i + 1)) * e ^ (i + 1))
+      | none => false) && logOk b e number (i + 1) ls
+
 /-- `ShortcutNode._is_interpolation` -/
 def isInterpolation (s : Sc) (begin_ : Option Rat) (nodes : List Leaf) : Bool :=
   match begin_, nodes.getLast? with
@@ -252,45 +292,33 @@ def isInterpolation (s : Sc) (begin_ : Option Rat) (nodes : List Leaf) : Bool :=
     match lastL.val with
     | none => false
     | some e =>
-      let number := nodes.length
       if nodes.any (fun l => l.val.isNone) then false
       else if s.kind == Kind.log then
-        if b ≤ 0 || e ≤ 0 then false
-        else (List.range number).all fun i =>
-          match nodes[i]? with
-          | some l => match l.val with
-            | some y => powClose y number (b ^ (number - (i + 1)) * e ^ (i + 1))
-            | none => false
-          | none => false
-      else
-        let spacing := (e - b) / (number : Rat)
-        (List.range number).all fun i =>
-          match nodes[i]? with
-          | some l => match l.val with
-            | some y => isclose (b + spacing * ((i + 1 : Nat) : Rat)) y
-            | none => false
-          | none => false
+        if b ≤ 0 || e ≤ 0 then false else logOk b e nodes.length 0 nodes
+      else linOk b ((e - b) / (nodes.length : Rat)) 0 nodes
   | _, _ => false
+
+/-- the text `_format_interpolate` returns once it has decided on start, count and closing node -/
+def mkInterp (s : Sc) (start : Option Leaf) (numInterp : Nat) (endL : Leaf) : Fmt :=
+  let ct := countText s numInterp
+  let st := match start with | some f => f.txt | none => ""
+  { text := joinEntries st (ct.1 ++ s.letter ++ s.midPad ++ endL.txt)
+    words := (match start with | some f => [Word.num f] | none => []) ++
+      [if s.kind == Kind.log then Word.log numInterp ct.2 else Word.lin numInterp ct.2, Word.num endL]
+    tail := endL.val }
 
 /-- `ShortcutNode._format_interpolate` -/
 def formatInterpolate (s : Sc) (carried : Option Rat) : Option Fmt :=
-  let mk (start : Option Leaf) (numInterp : Nat) (endL : Leaf) : Fmt :=
-    let (ct, shown) := countText s numInterp
-    let st := match start with | some f => f.txt | none => ""
-    { text := joinEntries st (ct ++ s.letter ++ s.midPad ++ endL.txt)
-      words := (match start with | some f => [Word.num f] | none => []) ++
-        [if s.kind == Kind.log then Word.log numInterp shown else Word.lin numInterp shown, Word.num endL]
-      tail := endL.val }
   if carried.isSome && isInterpolation s carried s.nodes then
     match s.nodes.getLast? with
-    | some e => some (mk none (s.nodes.length - 1) e)
+    | some e => some (mkInterp s none (s.nodes.length - 1) e)
     | none => none
   else
     match s.nodes with
     | first :: rest =>
       if rest.length ≥ 1 && isInterpolation s first.val rest then
         match rest.getLast? with
-        | some e => some (mk (some first) (rest.length - 1) e)
+        | some e => some (mkInterp s (some first) (rest.length - 1) e)
         | none => none
       else none
     | [] => none
